@@ -181,6 +181,10 @@ class BGP(protocol.Protocol):
         """
         buf = self._receive_buffer
 
+        if self.disconnected:
+            # we already closed this connection, nothing more is read from it
+            return False
+
         if len(buf) < bgp_cons.HDR_LEN:
             # Every BGP message is at least 19 octets. Maybe the rest
             # hasn't arrived yet.
